@@ -821,7 +821,7 @@ fn spec_strategy(c06: bool) -> impl Strategy<Value = Spec> {
         (-40_000i64..200_000, prop::bool::weighted(0.12), 200_000u32..1_500_000, prop::bool::weighted(0.10), 1u8..=2, 200_000u32..700_000),
     )
         .prop_map(|(ty, panic, disp, inline, cd, pd, buflen, tag, (jitter, spurious, sp_delay, stall, stall_k, stall_ns))| {
-            let mut s = Spec { ty, panic, disp, inline, child_delay: cd, parent_delay: pd, buflen, tag, spurious: false, stall_ns: 0, stall_k: 0, reuse: false, join_in_print: false, nested: 0 };
+            let mut s = Spec { ty, panic, disp, inline, child_delay: cd, parent_delay: pd, buflen, tag, spurious: false, stall_ns: 0, stall_k: 0, reuse: false, join_in_print: false, nested: 0, drop_first: false };
             if spurious && !panic && (disp == DISP_JOIN || disp == DISP_KEEP_END) {
                 // the thread sleeps first so that the joiner is parked when the spurious wake-up arrives
                 s.spurious = true;
@@ -892,7 +892,7 @@ fn fault_case_strategy(builds: Vec<&'static str>) -> impl Strategy<Value = Case>
 }
 
 fn sp(ty: u8, panic: bool, disp: u8, inline: bool, cd: Delay, pd: Delay, buflen: u16, tag: u64) -> Spec {
-    Spec { ty, panic, disp, inline, child_delay: cd, parent_delay: pd, buflen, tag, spurious: false, stall_ns: 0, stall_k: 0, reuse: false, join_in_print: false, nested: 0 }
+    Spec { ty, panic, disp, inline, child_delay: cd, parent_delay: pd, buflen, tag, spurious: false, stall_ns: 0, stall_k: 0, reuse: false, join_in_print: false, nested: 0, drop_first: false }
 }
 
 /// The four fixed small batches of the fault enumeration.
@@ -1034,6 +1034,25 @@ fn reuse_batch(k: u8) -> Batch {
     Batch { specs }
 }
 
+/// The other order: A's handle is dropped at once, while A still runs (so A itself releases its join state, in
+/// its epilogue); B is spawned when the k-th stalled free of A's epilogue has begun - after A gave the join state
+/// back, before A is gone - and joined at once while it still works for 3 ms.
+fn reuse_batch_dropped_first(k: u8) -> Batch {
+    let mut specs = Vec::new();
+    for (n, ty) in [2u8, 0, 8].into_iter().enumerate() {
+        let mut a = sp(ty, false, DISP_DROP_NOW, true, Delay::Sleep(400_000), Delay::None, 16, 0x4f00 + 2 * n as u64);
+        a.stall_ns = 600_000;
+        a.stall_k = k;
+        a.reuse = true;
+        a.drop_first = true;
+        let mut b = sp(ty, false, DISP_JOIN, true, Delay::Sleep(3_000_000), Delay::None, 16, 0x4f01 + 2 * n as u64);
+        b.reuse = true;
+        specs.push(a);
+        specs.push(b);
+    }
+    Batch { specs }
+}
+
 pub fn run(ctx: &Ctx) {
     let c06 = ctx.prop == "C06";
     let env = Env {
@@ -1068,7 +1087,7 @@ pub fn run(ctx: &Ctx) {
     } else if !ctx.is_replay() {
         for (k, build) in builds.iter().enumerate() {
             if (k as u32 + 2) % ctx.nworkers == ctx.worker {
-                let case = Case { build: build.to_string(), strace: false, fault: None, batches: vec![reuse_batch(1), reuse_batch(2), reuse_batch(3), reuse_batch(1), reuse_batch(2), reuse_batch(3)] };
+                let case = Case { build: build.to_string(), strace: false, fault: None, batches: vec![reuse_batch(1), reuse_batch(2), reuse_batch(3), reuse_batch_dropped_first(2), reuse_batch_dropped_first(3), reuse_batch_dropped_first(4), reuse_batch(1), reuse_batch(2), reuse_batch(3), reuse_batch_dropped_first(2), reuse_batch_dropped_first(3)] };
                 if !ctx.run_one("reuse", &case, || run_case(&env, &case)) {
                     break;
                 }
